@@ -105,7 +105,8 @@ def run(case):
     if 'c08' in checks:
         if 'escaped' in got:
             beh = [r.get('behavior') for r in case['routes']]
-            ok = case.get('handler') == 'reraise' and 'raise' in beh and got['escaped_type'] == 'ValueError'
+            ok = case.get('handler') == 'reraise' and (('raise' in beh and got['escaped_type'] == 'ValueError') or
+                                                       ('nonresponse' in beh and got['escaped_type'] == 'TypeError'))
             if not ok:
                 problems.append('exception escaped to the WSGI server: %s' % got['escaped'])
         elif 'status' not in got:
@@ -127,7 +128,88 @@ def run(case):
                           'query_latin1': u.query})
         if got2.get('status', '').startswith('30'):
             problems.append('following the redirect yields another redirect')
+    if 'c06' in checks:
+        problems += c06_oracle(case, app, got)
     return {'fails': bool(problems), 'why': '; '.join(problems), 'observed': got}
+
+
+def c06_oracle(case, app, got):
+    """Expected outcome per the statement of C06, computed independently of dispatch():
+    first route in order whose pattern matches and whose methods admit the request method,
+    unless it yields a non-breaking error; then last non-breaking error / 405 + Allow / 404."""
+    from clastic.route import normalize_path
+    req = case['request']
+    path, method = req['path'], req.get('method', 'GET')
+    allowed = set()
+    last_nb = None
+    expect = None
+    for i, r in enumerate(case['routes']):
+        br = app.routes[i]
+        if br.match_path(path) is None:
+            continue
+        ms = set(m.upper() for m in (r.get('methods') or []))
+        if 'GET' in ms:
+            ms.add('HEAD')
+        if ms and method.upper() not in ms:
+            allowed |= ms
+            continue
+        mode = r.get('slash_mode') or case.get('slash_mode', 'redirect')
+        if r['pattern'].endswith('/') and normalize_path(path, True) != path:
+            if mode == 'redirect':
+                expect = ('redirect', i)
+                break
+            if mode == 'strict':
+                last_nb = 404
+                continue
+        beh = r.get('behavior', 'ok')
+        if beh == 'ok':
+            expect = ('status', 200, 'route%d' % i)
+        elif beh == 'raise':
+            expect = ('escaped',) if case.get('handler') == 'reraise' else ('status', 500, None)
+        elif beh == 'raise_http':
+            expect = ('status', 400, None)
+        elif beh == 'return_http':
+            expect = ('status', 500, None)
+        elif beh == 'nonresponse':
+            expect = ('escaped',) if case.get('handler') == 'reraise' else ('status', 500, None)
+        elif beh == 'reroute':
+            expect = ('status', 200, 'rerouted%d' % i)
+        elif beh == 'nonbreaking_raise':
+            last_nb = 404
+            continue
+        elif beh == 'nonbreaking_return':
+            last_nb = 403
+            continue
+        break
+    if expect is None:
+        if last_nb is not None:
+            expect = ('status', last_nb, None)
+        elif allowed:
+            expect = ('status', 405, None, allowed)
+        else:
+            expect = ('status', 404, None)
+    out = []
+    if expect[0] == 'escaped':
+        if 'escaped' not in got:
+            out.append('expected the original exception to escape (re-raising handler), got %s' % got.get('status'))
+        return out
+    if 'escaped' in got:
+        return ['c06: exception escaped: %s' % got['escaped']]
+    code = int(got['status'].split()[0])
+    if expect[0] == 'redirect':
+        if code not in (301, 302, 303, 307, 308):
+            out.append('expected a slash redirect from route %d, got %s' % (expect[1], got['status']))
+        return out
+    if code != expect[1]:
+        out.append('expected status %s, got %s' % (expect[1], got['status']))
+    elif expect[2] is not None and method.upper() != 'HEAD' and expect[2] not in got.get('body', ''):
+        out.append('expected body marker %r, got %r' % (expect[2], got.get('body', '')[:60]))
+    if len(expect) > 3 and code == 405:
+        hdr = dict(got['headers']).get('Allow')
+        names = set(x.strip() for x in hdr.split(',')) if hdr else None
+        if names != expect[3]:
+            out.append('405 Allow header %r does not name exactly %s' % (hdr, sorted(expect[3])))
+    return out
 
 
 if __name__ == '__main__':
